@@ -42,9 +42,9 @@ var configs = []string{"default", "noregpool", "nocontpool", "noregpool+nocontpo
 const (
 	cfgDefault  = 0
 	cfgNoQuotas = 4
-	batchSize   = 96
+	batchSize   = 64
 	restartAt   = 4000 // programs served before a runner is recycled (abandoned coroutines are parked goroutines)
-	// A program costs milliseconds (CPU limit 5e6 in every accounting
+	// A program costs milliseconds (CPU limit 1e6 in every accounting
 	// configuration); a runner silent for this long on one program is hung.
 	programTimeout = 90 * time.Second
 	confirmRuns    = 3
@@ -417,6 +417,34 @@ func fresh(ci int, req []byte) ([]byte, string) {
 	return r.roundtrip(req)
 }
 
+// confirm reruns the program in confirmRuns fresh runner processes of each of
+// the two configurations (all started at once).
+func confirm(it *item, ref, ci int) (bool, string) {
+	type res struct {
+		c    int
+		line []byte
+		died string
+	}
+	ch := make(chan res, 2*confirmRuns)
+	for k := 0; k < confirmRuns; k++ {
+		for _, c := range []int{ref, ci} {
+			go func(c int) {
+				l, d := fresh(c, it.req)
+				ch <- res{c, l, d}
+			}(c)
+		}
+	}
+	stable, why := true, ""
+	for k := 0; k < 2*confirmRuns; k++ {
+		r := <-ch
+		if stable && (r.died != "" || !bytes.Equal(r.line, it.lines[r.c])) {
+			stable = false
+			why = fmt.Sprintf("cfg=%s first %s, fresh process %s %s", configs[r.c], pretty(it.lines[r.c]), pretty(r.line), r.died)
+		}
+	}
+	return stable, why
+}
+
 func unstableLog(fam string, it *item, why string) {
 	f, err := os.OpenFile(filepath.Join(core.Root(), ".bin", "c14-unstable.log"), os.O_APPEND|os.O_CREATE|os.O_WRONLY, 0644)
 	if err != nil {
@@ -533,18 +561,7 @@ func judge(fam string, it *item) core.Outcome {
 		// Confirm in fresh processes: both configurations must reproduce their
 		// own observation (a program whose outcome varies from process to
 		// process within ONE configuration is outside the property).
-		stable := true
-		why := ""
-		for k := 0; k < confirmRuns && stable; k++ {
-			for _, c := range []int{ref, ci} {
-				l, died := fresh(c, it.req)
-				if died != "" || !bytes.Equal(l, it.lines[c]) {
-					stable = false
-					why = fmt.Sprintf("cfg=%s first %s, fresh process %s %s", configs[c], pretty(it.lines[c]), pretty(l), died)
-					break
-				}
-			}
-		}
+		stable, why := confirm(it, ref, ci)
 		if !stable {
 			unstableLog(fam, it, why)
 			continue
@@ -681,7 +698,7 @@ func budget1(tier, fam string) int {
 	return 30
 }
 
-func families(tier string) []*core.Family {
+func allSources(tier string) []source {
 	var srcs []source
 	srcs = append(srcs, templateSource(), staleSource())
 	for _, f := range progfam.All(tier) {
@@ -691,8 +708,12 @@ func families(tier string) []*core.Family {
 		}
 		srcs = append(srcs, progSource(f, s))
 	}
+	return srcs
+}
+
+func families(tier string) []*core.Family {
 	var fams []*core.Family
-	for _, s := range srcs {
+	for _, s := range allSources(tier) {
 		fr := &famRunner{src: s, cache: map[uint64]core.Outcome{}}
 		fams = append(fams, &core.Family{
 			Name: s.name,
@@ -722,7 +743,7 @@ func main() {
 			"(status, emit trace incl. finalizers run at close, results, error value) must be byte-identical; non-trivial = emits something or does not end ok; distinct = distinct baseline observations",
 		Assumptions: []string{
 			"differential oracle: the default build is the baseline; a difference is reported only after both configurations reproduced their own observation in 3 fresh processes each (process-dependent programs are logged to .bin/c14-unstable.log and not judged)",
-			"noquotas build: no runtime library and no CPU accounting, so programs mentioning `runtime` and programs the default build kills at the CPU limit (5e6) are compared in the other five configurations only",
+			"noquotas build: no runtime library and no CPU accounting, so programs mentioning `runtime` and programs the default build kills at the CPU limit (1e6 units; terminating corpus programs need < 1e5) are compared in the other five configurations only",
 			"the noscalar tag (runtime/value_noscalar.go) does not compile on the current tree and is not a configuration of the property",
 			"a runner crash or hang (>90 s on one program) is attributed to the program in flight (clause=runner-died)",
 		},
@@ -751,6 +772,35 @@ func main() {
 // dumpTemplates (development aid, `C14_DUMP=<d> .bin/c14`): prints every
 // template program at depth d as runner request lines.
 func init() {
+	// C14_DUMPFAM=<family>:<from>:<count>[:<tier>] prints the request lines of a slice of a family
+	if df := os.Getenv("C14_DUMPFAM"); df != "" {
+		parts := strings.Split(df, ":")
+		from, _ := strconv.ParseUint(parts[1], 10, 64)
+		cnt, _ := strconv.ParseUint(parts[2], 10, 64)
+		tier := "quick"
+		if len(parts) > 3 {
+			tier = parts[3]
+		}
+		w := bufio.NewWriter(os.Stdout)
+		for _, f := range families(tier) {
+			if f.Name != parts[0] {
+				continue
+			}
+			for _, src := range allSources(tier) {
+				if src.name != f.Name {
+					continue
+				}
+				for i := from; i < from+cnt && i < src.size; i++ {
+					if it := src.at(i); it != nil {
+						it.finish()
+						w.Write(it.req)
+					}
+				}
+			}
+		}
+		w.Flush()
+		os.Exit(0)
+	}
 	ds := os.Getenv("C14_DUMP")
 	if ds == "" {
 		return
